@@ -81,6 +81,18 @@ def binop_cells(widths, rng=None, with_ints=True):
                         spec = lambda P, a, cm=cm, ta=ta, tb=tb, tr=tr, vrule=vrule: vrule(P, a, P.const(cm), ta, tb, tr)
                         assume = None
                     cells.append(Cell(key=f"{name}|{ta}|{tb}|const{bits}|{order}", ins=[("a", tv)], out=_out_ty(tr), body="{o} <<= " + expr, spec=spec, assume=assume))
+    # typed constant shifted by a run-time amount (the reflected replacement path of << and >>)
+    for name in ("shl", "shr"):
+        tmpl, trule, vrule, nz = SP.BINOPS[name]
+        for tc in [t for t in ctys if t.kind in ("U", "S")]:
+            for sw in (1, 2):
+                tr = trule(tc, U(sw))
+                if tr is None:
+                    continue
+                for bits in sorted({1, (1 << tc.w) - 1, 1 << (tc.w - 1), (1 << (tc.w - 1)) | 1}):
+                    cm = PyP.wrap(bits, tc.w, True) if tc.signed else bits
+                    cells.append(Cell(key=f"{name}|{tc}|U{sw}|const{bits}|cv", ins=[("a", U(sw))], out=_out_ty(tr), body="{o} <<= " + tmpl.format(a=literal_src(tc, bits), b="{a}"),
+                                      spec=lambda P, a, cm=cm, tc=tc, sw=sw, tr=tr, vrule=vrule: vrule(P, P.const(cm), a, tc, U(sw), tr)))
     # shifts: constant amounts 0..w+1 and run-time Unsigned[1..2]
     for name in ("shl", "shr"):
         tmpl, trule, vrule, nz = SP.BINOPS[name]
@@ -156,6 +168,15 @@ def access_cells(widths):
             cells.append(Cell(key=f"rtindex|{tv}", ins=[("a", tv), ("i", U(k))], out=BIT, body="{o} <<= {a}[{i}]",
                               spec=lambda P, a, i, tv=tv: P.band(P.shr(SP._bits(P, a, tv), i), P.const(1)),
                               assume=(lambda P, a, i, w=w: i < w)))
+        # accessor methods: msb / left take the top bits, lsb / right the low bits; count = number of bits, rest = number of bits left out
+        for meth, top in (("msb", True), ("left", True), ("lsb", False), ("right", False)):
+            cells.append(Cell(key=f"{meth}|{tv}|single", ins=[("a", tv)], out=BIT, body=f"{{o}} <<= {{a}}.{meth}()",
+                              spec=lambda P, a, tv=tv, pos=(w - 1 if top else 0): P.band(P.shr(SP._bits(P, a, tv), pos), P.const(1))))
+            for k in range(1, w):
+                for form, cnt in ((f"{k}", k), (f"count={k}", k), (f"rest={k}", w - k), (f"{k}, {w - k}", k)):
+                    lo = w - cnt if top else 0
+                    cells.append(Cell(key=f"{meth}|{tv}|{form}", ins=[("a", tv)], out=BV(cnt), body=f"{{o}} <<= {{a}}.{meth}({form})",
+                                      spec=lambda P, a, tv=tv, lo=lo, cnt=cnt: P.wrap(P.shr(SP._bits(P, a, tv), lo), cnt, False)))
         if tv.kind in ("U", "S"):
             for nw in range(w, w + 3):
                 cells.append(Cell(key=f"resize|{tv}|{nw}", ins=[("a", tv)], out=Ty(tv.kind, nw), body=f"{{o}} <<= {{a}}.resize({nw})",
